@@ -51,6 +51,12 @@ func L3(pageSize uint32) Layout {
 	return Layout{Name: "L3", PageSize: pageSize, Map: []uint32{0, 1, 257, 512, 513, 768, 769, 1024, 1025}}
 }
 
+// L4 contains SQLite's lock page (page size 65536: page 16385): model pages 2, 3, 4 are real pages
+// 16384, 16385 (the lock page itself, never written) and 16386. A database of two model pages is 1 GiB.
+func L4() Layout {
+	return Layout{Name: "L4", PageSize: 65536, Map: []uint32{0, 1, 16384, 16385, 16386, 16641}}
+}
+
 // Real returns the real page number of model page p (0 -> 0).
 func (l Layout) Real(p int) uint32 {
 	if p <= 0 {
